@@ -342,17 +342,63 @@ Proof. unfold chr_ok, w12. intuition. Qed.
 Lemma Forall_chr_ok_w12 u text : Forall (chr_ok u) text -> Forall w12 text.
 Proof. intros H. eapply Forall_impl; [|exact H]. intros; eapply chr_ok_w12; eauto. Qed.
 
-Lemma trans_id u text : Forall (chr_ok u) text -> map trans_chr text = text.
+(* ---------- the text that is sent for a run ---------- *)
+Lemma trans_text_cons u ch text :
+  trans_text u (ch :: text) =
+    (if u then (if fst ch <? 32 then [] else [ch]) else [trans_chr ch]) ++ trans_text u text.
+Proof. unfold trans_text. destruct u; cbn [filter map app]; [|reflexivity]. destruct (fst ch <? 32); reflexivity. Qed.
+
+Lemma trans_text_app u a b : trans_text u (a ++ b) = trans_text u a ++ trans_text u b.
+Proof. unfold trans_text. destruct u; [apply filter_app|apply map_app]. Qed.
+
+Lemma out_text_app c cs a b : out_text c cs (a ++ b) = out_text c cs a ++ out_text c cs b.
+Proof. unfold out_text. destruct (cs =? 2); [reflexivity|apply trans_text_app]. Qed.
+
+Lemma trans_text_ok u text : Forall (chr_ok u) text ->
+  Forall w12 (trans_text u text) /\ calc_width (trans_text u text) = calc_width text /\
+  (starts_with_base text -> starts_with_base (trans_text u text)) /\
+  (Forall (fun ch : chr => snd ch = 0) text -> Forall (fun ch : chr => snd ch = 0) (trans_text u text)).
 Proof.
-  induction 1 as [|ch l H _ IH]; [reflexivity|]. cbn [map]. rewrite IH. f_equal.
-  unfold trans_chr. destruct H as [H _]. destruct (fst ch <? 32) eqn:E; [lia|reflexivity].
+  induction 1 as [|ch l H _ IH].
+  - unfold trans_text. destruct u; cbn; splits; auto.
+  - destruct IH as (I1 & I2 & I3 & I4). rewrite trans_text_cons.
+    pose proof (chr_ok_w12 _ _ H) as Hw. destruct H as (H0 & H1 & H2 & H3).
+    destruct u.
+    + destruct (fst ch <? 32) eqn:E; cbn [app].
+      * assert (Hz : snd ch = 0) by (apply H3; [lia|reflexivity]).
+        splits; auto.
+        -- cbn [calc_width]. lia.
+        -- cbn [starts_with_base]. intros Hb. congruence.
+        -- intros Hall. apply I4. eapply Forall_inv_tail; eauto.
+      * splits.
+        -- constructor; assumption.
+        -- cbn [calc_width]. lia.
+        -- cbn [starts_with_base]. auto.
+        -- intros Hall. constructor; [apply (Forall_inv Hall)|apply I4; eapply Forall_inv_tail; eauto].
+    + cbn [app]. assert (Hw1 : snd ch = 1) by (destruct H1 as [Hh|[Hh _]]; [exact Hh|discriminate]).
+      assert (Ht : snd (trans_chr ch) = 1) by (unfold trans_chr; destruct (fst ch <? 32); [reflexivity|exact Hw1]).
+      splits.
+      * constructor; [right; left; exact Ht|exact I1].
+      * cbn [calc_width]. lia.
+      * cbn [starts_with_base]. intros _. lia.
+      * intros Hall. apply Forall_inv in Hall. lia.
 Qed.
 
-Lemma trans_text_id u text : Forall (chr_ok u) text -> trans_text u text = text.
+Lemma out_text_ok c cs text : Forall (chr_ok (g_utf8 c)) text ->
+  Forall w12 (out_text c cs text) /\ calc_width (out_text c cs text) = calc_width text /\
+  (starts_with_base text -> starts_with_base (out_text c cs text)) /\
+  (Forall (fun ch : chr => snd ch = 0) text -> Forall (fun ch : chr => snd ch = 0) (out_text c cs text)).
 Proof.
-  intros H. unfold trans_text. destruct u; [|apply (trans_id _ _ H)].
-  induction H as [|ch l Hc _ IH]; [reflexivity|]. cbn [filter]. destruct Hc as [Hc _].
-  destruct (fst ch <? 32) eqn:E; [lia|]. cbn [negb]. now rewrite IH.
+  intros H. unfold out_text. destruct (cs =? 2); [|apply trans_text_ok; exact H].
+  splits; auto. eapply Forall_chr_ok_w12; eauto.
+Qed.
+
+Lemma out_text_spaces c cs sp : Forall (fun ch : chr => fst ch = 32) sp -> out_text c cs sp = sp.
+Proof.
+  intros H. unfold out_text. destruct (cs =? 2); [reflexivity|].
+  induction H as [|ch l Hc _ IH]; [unfold trans_text; destruct (g_utf8 c); reflexivity|].
+  rewrite trans_text_cons, IH. assert (E : fst ch <? 32 = false) by lia. unfold trans_chr. rewrite E.
+  destruct (g_utf8 c); reflexivity.
 Qed.
 
 Lemma RowSt_set_attr t y P R v : RowSt t y P R -> RowSt (set_attr t v) y P R.
@@ -439,9 +485,7 @@ Proof.
   intros Hc Hok HI HR HF Hy Hfit. destruct r as [[a cs] text]. cbn [snd] in Hfit.
   destruct Hok as (Htext & Hbase & Hcs). destruct HI as (Iattr & Iirm & Ics).
   unfold emit_run.
-  assert (Etext : (if cs =? 2 then text else trans_text (g_utf8 c) text) = text).
-  { destruct (cs =? 2); [reflexivity|]. apply (trans_text_id _ _ Htext). }
-  rewrite Etext. cbn [fst snd].
+  fold (out_text c cs text). destruct (out_text_ok c cs text Htext) as (Ow & Oc & Ob & _). cbn [fst snd].
   rewrite !run_app.
   (* attribute *)
   set (ta := if r_last rs =? a then [] else attr_to_escape c a).
@@ -473,10 +517,10 @@ Proof.
   destruct H2 as (t2 & -> & HR2 & HF2 & Hat2 & Hir2 & Hcs2' & HI2).
   (* text *)
   assert (Hcols2 : t_cols t2 = t_cols t) by (rewrite (SameFrame_cols _ _ _ HF2), (SameFrame_cols _ _ _ HF); reflexivity).
-  destruct (print_ok text t0 t2 y P R HR2 HF2 Hy Hir2) as (R' & HR3 & HF3 & HM3).
-  { eapply Forall_chr_ok_w12; eauto. }
-  { exact Hbase. }
-  { rewrite Hcols2. exact Hfit. }
+  destruct (print_ok (out_text c cs text) t0 t2 y P R HR2 HF2 Hy Hir2) as (R' & HR3 & HF3 & HM3).
+  { exact Ow. }
+  { apply Ob. exact Hbase. }
+  { rewrite Hcols2, Oc. exact Hfit. }
   exists R'. rewrite Hcs2', Hat2 in HR3. split; [exact HR3|]. split; [exact HF3|]. split; [|reflexivity].
   destruct HM3 as (M1 & M2 & M3 & M4).
   unfold Inv. cbn [r_last r_first r_lcs]. rewrite M1, M2. splits; auto.
@@ -502,6 +546,14 @@ Proof.
   induction 1 as [|r row H _ IH]; [change (row_width []) with 0; lia|]. rewrite row_width_cons. pose proof (run_ok'_width c r H). lia.
 Qed.
 
+Lemma run_cells_ok c r : run_ok' c r -> zlen (run_cells c r) = calc_width (snd r) /\ WFc (run_cells c r).
+Proof.
+  destruct r as [[a cs] text]. intros (Ht & _). cbn [snd run_cells].
+  destruct (out_text_ok c cs text Ht) as (Ow & Oc & _).
+  change (paint_text [] cs (attr_vis c a) (out_text c cs text)) with (text_cells cs (attr_vis c a) (out_text c cs text)).
+  split; [rewrite zlen_text_cells by exact Ow; exact Oc|apply WFc_text_cells; exact Ow].
+Qed.
+
 Lemma emit_runs_ok c row : forall rs t0 t y P R,
   cfg_ok c -> Forall (run_ok' c) row -> Inv c rs t -> RowSt t y P R -> SameFrame t0 t y -> 0 <= y < zlen (t_grid t0) ->
   zlen P + row_width row <= t_cols t ->
@@ -518,9 +570,7 @@ Proof.
     cbn [emit_runs]. destruct (emit_run c rs r) as [t1 st1] eqn:E1. cbn [fst snd] in *.
     assert (Hcols : t_cols (run t t1) = t_cols t)
       by (rewrite (SameFrame_cols _ _ _ HF1), (SameFrame_cols _ _ _ HF); reflexivity).
-    assert (Hz : zlen (run_cells c r) = calc_width (snd r)).
-    { destruct r as [[a cs] text]. destruct Hr as [Ht _]. cbn [snd run_cells].
-      apply (zlen_text_cells cs (attr_vis c a) text). eapply Forall_chr_ok_w12; eauto. }
+    assert (Hz : zlen (run_cells c r) = calc_width (snd r)) by (apply run_cells_ok; exact Hr).
     destruct (IH st1 t0 (run t t1) y _ _ Hc Hrow HI1 HR1 HF1 Hy) as (R2 & HR2 & HF2 & HI2 & Hf2).
     { rewrite zlen_app, Hz. lia. }
     destruct (emit_runs c st1 row) as [t2 st2] eqn:E2. cbn [fst snd] in *.
@@ -608,11 +658,16 @@ Proof.
 Qed.
 
 Lemma run_ok_weak c r : run_ok c r -> run_ok' c r.
-Proof. destruct r as [[a cs] text]. intros (_ & H0 & H1 & H2). unfold run_ok'. splits; assumption. Qed.
+Proof. destruct r as [[a cs] text]. intros (_ & H0 & H1 & H2 & _). unfold run_ok'. splits; assumption. Qed.
 
-Lemma run_cells_split c a cs t1 t2 : Forall w12 t1 -> Forall w12 t2 -> starts_with_base t2 ->
+Lemma run_cells_split c a cs t1 t2 :
+  Forall (chr_ok (g_utf8 c)) t1 -> Forall (chr_ok (g_utf8 c)) t2 -> starts_with_base t2 ->
   run_cells c (a, cs, t1 ++ t2) = run_cells c (a, cs, t1) ++ run_cells c (a, cs, t2).
-Proof. intros. cbn [run_cells]. apply (text_cells_app cs (attr_vis c a) t1 t2); assumption. Qed.
+Proof.
+  intros H1 H2 Hb. cbn [run_cells]. rewrite out_text_app.
+  destruct (out_text_ok c cs t1 H1) as (W1 & _). destruct (out_text_ok c cs t2 H2) as (W2 & _ & B2 & _).
+  apply (text_cells_app cs (attr_vis c a)); auto.
+Qed.
 
 Lemma row_cells_single c r : row_cells c [r] = run_cells c r.
 Proof. cbn [row_cells flat_map]. apply app_nil_r. Qed.
@@ -621,7 +676,7 @@ Lemma row_width_single r : row_width [r] = calc_width (snd r).
 Proof. rewrite row_width_cons. change (row_width []) with 0. lia. Qed.
 
 Lemma run_cells_nil c a cs : run_cells c (a, cs, []) = [].
-Proof. reflexivity. Qed.
+Proof. cbn [run_cells]. unfold out_text, trans_text. destruct (cs =? 2), (g_utf8 c); reflexivity. Qed.
 
 Lemma text_width_pos u t0 c zs : Forall (chr_ok u) (t0 ++ c :: zs) -> snd c <> 0 ->
   text_width u (t0 ++ c :: zs) =? 0 = false.
@@ -652,7 +707,7 @@ Proof.
   intros [Hruns Hwidth] Hne.
   destruct (snoc_cases row) as [->|(front & [[za zcs] lt] & ->)]; [congruence|].
   apply Forall_app in Hruns as [Hfront Hlast]. apply Forall_inv in Hlast as Hz.
-  destruct Hz as (Hltne & Hltb & Hlt & Hzcs).
+  destruct Hz as (Hltne & Hltb & Hlt & Hzcs & _).
   destruct (split_last_base lt Hltne Hltb) as (lt0 & zc & zs & -> & Hzc0 & Hzs & Hlt0b).
   unfold last_row. rewrite last_opt_snoc, removelast_last.
   rewrite (calc_text_pos_last _ lt0 zc zs Hlt Hzc0 Hzs).
@@ -670,7 +725,7 @@ Proof.
     + left. eexists. split; reflexivity.
     + right. rewrite last_opt_snoc, removelast_last.
       apply Forall_app in Hfront as [Hfront0 Hy]. apply Forall_inv in Hy as Hyr.
-      destruct Hyr as (Hntne & Hntb & Hnt & Hycs).
+      destruct Hyr as (Hntne & Hntb & Hnt & Hycs & _).
       destruct (split_last_base nt Hntne Hntb) as (nt0 & yc & ys & -> & Hyc0 & Hys & Hnt0b).
       rewrite (text_width_pos _ nt0 yc ys Hnt Hyc0).
       rewrite (calc_text_pos_last _ nt0 yc ys Hnt Hyc0 Hys).
@@ -681,7 +736,7 @@ Proof.
       rewrite row_width_app, row_width_single in Hwidth. cbn [snd] in Hwidth. rewrite calc_width_app in Hwidth.
       split; [reflexivity|]. splits.
       * rewrite !row_cells_app, !row_cells_single.
-        rewrite (run_cells_split c ya ycs nt0 (yc :: ys)); [|eapply Forall_chr_ok_w12; eauto|eapply Forall_chr_ok_w12; eauto|exact Hyc0].
+        rewrite (run_cells_split c ya ycs nt0 (yc :: ys)); [|exact Hnt0|exact Hyt|exact Hyc0].
         destruct (zlen nt0 =? 0) eqn:En.
         -- assert (nt0 = []) by (apply zlen_zero_nil; lia). subst nt0. rewrite run_cells_nil. cbn [app].
            rewrite <- ?app_assoc. reflexivity.
@@ -714,9 +769,8 @@ Proof.
     split; [reflexivity|]. splits.
     * rewrite !row_cells_app, !row_cells_single.
       rewrite (run_cells_split c za zcs lt1 ((yc :: ys) ++ zc :: zs));
-        [|eapply Forall_chr_ok_w12; eauto|apply Forall_app; split; eapply Forall_chr_ok_w12; eauto|exact Hyc0].
-      rewrite (run_cells_split c za zcs (yc :: ys) (zc :: zs));
-        [|eapply Forall_chr_ok_w12; eauto|eapply Forall_chr_ok_w12; eauto|exact Hzc0].
+        [|exact Hlt1|apply Forall_app; split; assumption|exact Hyc0].
+      rewrite (run_cells_split c za zcs (yc :: ys) (zc :: zs)); [|exact Hyt|exact Hzt|exact Hzc0].
       destruct (zlen lt1 =? 0) eqn:E1.
       -- assert (lt1 = []) by (apply zlen_zero_nil; lia). subst lt1. rewrite run_cells_nil. cbn [app].
          rewrite <- ?app_assoc. reflexivity.
@@ -797,8 +851,7 @@ Lemma zlen_row_cells c row : Forall (run_ok' c) row -> zlen (row_cells c row) = 
 Proof.
   induction 1 as [|r row H _ IH]; [reflexivity|].
   cbn [row_cells flat_map]. fold (row_cells c row). rewrite zlen_app, IH, row_width_cons. f_equal.
-  destruct r as [[a cs] text]. destruct H as [Ht _]. cbn [snd run_cells].
-  apply (zlen_text_cells cs (attr_vis c a) text). eapply Forall_chr_ok_w12; eauto.
+  apply run_cells_ok. exact H.
 Qed.
 
 (* the whole row is printed *)
@@ -838,13 +891,13 @@ Proof.
   intros Hok Hsp. induction Hsp as [|ch sp H32 Hsp IH].
   - split; reflexivity.
   - assert (Hw : snd ch = 1).
-    { destruct Hok as [Hok|Hok]; apply Forall_inv in Hok; destruct Hok as (_ & _ & Hs); auto. }
+    { destruct Hok as [Hok|Hok]; apply Forall_inv in Hok; destruct Hok as (_ & _ & Hs & _); auto. }
     assert (Hok' : Forall (chr_ok true) sp \/ Forall (chr_ok false) sp).
     { destruct Hok as [Hok|Hok]; [left|right]; eapply Forall_inv_tail; eauto. }
     assert (Hw12 : Forall w12 sp) by (destruct Hok' as [H|H]; eapply Forall_chr_ok_w12; eauto).
     assert (Hsb : starts_with_base sp).
     { destruct sp as [|c2 sp']; [exact I|]. cbn. apply Forall_inv in Hsp.
-      destruct Hok' as [H|H]; apply Forall_inv in H; destruct H as (_ & _ & Hs); rewrite (Hs Hsp); discriminate. }
+      destruct Hok' as [H|H]; apply Forall_inv in H; destruct H as (_ & _ & Hs & _); rewrite (Hs Hsp); discriminate. }
     destruct (IH Hok') as [IH1 IH2]. split.
     + change (ch :: sp) with ([ch] ++ sp).
       rewrite text_cells_app; [|constructor; [right; left; exact Hw|constructor]|exact Hw12|exact Hsb].
@@ -876,10 +929,10 @@ Proof.
   assert (Htxb : starts_with_base tx) by (destruct tx; [exact I|exact Hbase]).
   assert (Hspb : starts_with_base sp).
   { unfold sp. assert (Hch : snd ch <> 0).
-    { apply Forall_app in Hspok as [_ H]. apply Forall_inv in H. destruct H as (_ & _ & Hs).
+    { apply Forall_app in Hspok as [_ H]. apply Forall_inv in H. destruct H as (_ & _ & Hs & _).
       unfold is_space in Hsp. rewrite Hs by lia. discriminate. }
     destruct sp0 as [|c0 sp0']; [exact Hch|]. cbn. apply Forall_inv in Hsp0.
-    apply Forall_app in Hspok as [H _]. apply Forall_inv in H. destruct H as (_ & _ & Hs). rewrite (Hs Hsp0). discriminate. }
+    apply Forall_app in Hspok as [H _]. apply Forall_inv in H. destruct H as (_ & _ & Hs & _). rewrite (Hs Hsp0). discriminate. }
   assert (Hrow' : Forall (run_ok' c) (front ++ [(a, cs, tx)])).
   { apply Forall_app. split; [exact Hfront|]. constructor; [|constructor]. unfold run_ok'. splits; assumption. }
   destruct (spaces_cells cs (attr_vis c a) sp) as [Hcells Hwsp]; auto.
@@ -909,10 +962,11 @@ Proof.
   unfold RowDone. splits; auto.
   - unfold row_shows. rewrite Hrow.
     rewrite row_cells_app, row_cells_single.
-    rewrite run_cells_split; [|eapply Forall_chr_ok_w12; eauto|eapply Forall_chr_ok_w12; eauto|exact Hspb].
+    rewrite run_cells_split; [|exact Htx|exact Hspok|exact Hspb].
     rewrite app_assoc. rewrite <- (row_cells_single c (a, cs, tx)), <- row_cells_app.
     apply Forall2_app; [apply Forall2_vis_refl|].
-    change (run_cells c (a, cs, sp)) with (text_cells cs (attr_vis c a) sp). rewrite Hcells.
+    change (run_cells c (a, cs, sp)) with (text_cells cs (attr_vis c a) (out_text c cs sp)).
+    rewrite (out_text_spaces c cs sp Hspaces). rewrite Hcells.
     replace (Z.to_nat (t_cols t2 - zlen (row_cells c (front ++ [(a, cs, tx)])))) with (length sp)
       by (rewrite HzP, Hcols2; unfold zlen; lia).
     rewrite <- (repeat_length (mkCell 32 1 cs (attr_vis c a) []) (length sp)) at 2.
@@ -929,9 +983,7 @@ Qed.
 Lemma WFc_row_cells c row : Forall (run_ok' c) row -> WFc (row_cells c row).
 Proof.
   induction 1 as [|r row H _ IH]; [constructor|].
-  cbn [row_cells flat_map]. apply WFc_app; [|exact IH].
-  destruct r as [[a cs] text]. destruct H as [Ht _]. cbn [run_cells].
-  apply (WFc_text_cells cs (attr_vis c a) text). eapply Forall_chr_ok_w12; eauto.
+  cbn [row_cells flat_map]. apply WFc_app; [|exact IH]. apply run_cells_ok. exact H.
 Qed.
 
 Lemma RowSt_set_pos_back t y P Zc R :
@@ -946,6 +998,22 @@ Proof.
 Qed.
 
 (* the bottom-right cell: Z is drawn in the place of Y, then Y is inserted in front of it *)
+Lemma out_text_base c cs t : Forall (chr_ok (g_utf8 c)) t -> base_text t -> base_text (out_text c cs t).
+Proof.
+  intros Hok (ch & zs & -> & Hc0 & Hzs). change (ch :: zs) with ([ch] ++ zs). rewrite out_text_app.
+  pose proof (Forall_inv Hok) as Hch. apply Forall_inv_tail in Hok.
+  destruct (out_text_ok c cs zs Hok) as (_ & _ & _ & Oz).
+  assert (E : exists oc, out_text c cs [ch] = [oc] /\ snd oc <> 0).
+  { unfold out_text. destruct (cs =? 2); [exists ch; auto|]. rewrite trans_text_cons.
+    destruct Hch as (H0 & H1 & H2 & H3). destruct (g_utf8 c) eqn:U.
+    - destruct (fst ch <? 32) eqn:E; [exfalso; apply Hc0; apply H3; [lia|reflexivity]|].
+      exists ch. unfold trans_text. cbn. auto.
+    - exists (trans_chr ch). unfold trans_text. cbn. split; [reflexivity|].
+      assert (Hw1 : snd ch = 1) by (destruct H1 as [Hh|[Hh _]]; [exact Hh|discriminate]).
+      unfold trans_chr. destruct (fst ch <? 32); cbn; lia. }
+  destruct E as (oc & -> & Hoc). exists oc, (out_text c cs zs). cbn [app]. splits; auto.
+Qed.
+
 Lemma row_trick_ok c rs nr0 ya ycs yt za zcs zt row t0 t y R0 :
   cfg_ok c -> Forall (run_ok' c) (nr0 ++ [(za, zcs, zt)]) -> run_ok' c (ya, ycs, yt) ->
   base_text yt -> base_text zt ->
@@ -964,7 +1032,15 @@ Proof.
   destruct (base_text_width zt Hbz) as (zc & zs & Ezt & Hzc0 & Hzs & Hwzt).
   assert (Hnr0 : Forall (run_ok' c) nr0) by (apply Forall_app in Hnr as [H _]; exact H).
   assert (Hzr : run_ok' c (za, zcs, zt)) by (apply Forall_app in Hnr as [_ H]; apply Forall_inv in H; exact H).
+  pose proof (run_cells_ok c _ Hzr) as [HzZ0 HwZ0]. cbn [snd] in HzZ0.
   destruct Hzr as (Hzt & _ & Hzcs).
+  (* the text that is sent for Y *)
+  destruct (out_text_ok c ycs yt Hyt) as (Ow & Oc & _ & _).
+  destruct (base_text_width _ (out_text_base c ycs yt Hyt Hby)) as (oc & os & Eot & Hoc0 & Hos & Hwot).
+  assert (Hsame : snd oc = snd yc) by lia.
+  assert (Hwo : snd oc = 1 \/ snd oc = 2).
+  { rewrite Eot in Ow. apply Forall_inv in Ow. destruct Ow as [H|[H|H]]; [congruence|auto|auto]. }
+  assert (Hos12 : Forall w12 os) by (rewrite Eot in Ow; eapply Forall_inv_tail; eauto).
   assert (Hyc : chr_ok (g_utf8 c) yc) by (rewrite Eyt in Hyt; apply Forall_inv in Hyt; exact Hyt).
   assert (Hzc : chr_ok (g_utf8 c) zc) by (rewrite Ezt in Hzt; apply Forall_inv in Hzt; exact Hzt).
   assert (Hwy : snd yc = 1 \/ snd yc = 2) by (destruct (chr_ok_w12 _ _ Hyc) as [H|[H|H]]; [congruence|auto|auto]).
@@ -981,11 +1057,8 @@ Proof.
   set (Zc := run_cells c (za, zcs, zt)) in *. set (Yc := run_cells c (ya, ycs, yt)) in *.
   assert (Hsplit : row_cells c nr = row_cells c nr0 ++ Zc).
   { unfold nr. rewrite row_cells_app, row_cells_single. reflexivity. }
-  assert (HzZ : zlen Zc = snd zc).
-  { unfold Zc. change (zlen (text_cells zcs (attr_vis c za) zt) = snd zc).
-    rewrite zlen_text_cells by (eapply Forall_chr_ok_w12; eauto). exact Hwzt. }
-  assert (HwZ : WFc Zc).
-  { unfold Zc. change (WFc (text_cells zcs (attr_vis c za) zt)). apply WFc_text_cells. eapply Forall_chr_ok_w12; eauto. }
+  assert (HzZ : zlen Zc = snd zc) by (unfold Zc; rewrite <- Hwzt; exact HzZ0).
+  assert (HwZ : WFc Zc) by exact HwZ0.
   assert (Hz0 : zlen (row_cells c nr0) = row_width nr0) by (apply zlen_row_cells; exact Hnr0).
   assert (HzP : zlen (row_cells c nr) = t_cols t - snd yc) by (rewrite zlen_row_cells by exact Hnr; exact Hwnr).
   assert (Hlen2 : zlen (t_grid t2) = zlen (t_grid t0)) by (apply (SameFrame_len _ _ _ HF2)).
@@ -995,9 +1068,7 @@ Proof.
   assert (HzR' : zlen R' = snd yc) by lia.
   destruct HI2 as (_ & Hirm2 & Hcs2).
   (* backspaces *)
-  assert (Eit : (if ycs =? 2 then yt else trans_text (g_utf8 c) yt) = yt).
-  { destruct (ycs =? 2); [reflexivity|]. apply (trans_text_id _ _ Hyt). }
-  unfold emit_ins. cbv beta iota zeta. rewrite Eit. rewrite !run_app. fold t2. rewrite Hwzt.
+  unfold emit_ins. cbv beta iota zeta. fold (out_text c ycs yt). rewrite Eot. rewrite !run_app. fold t2. rewrite Hwzt.
   assert (Hbs : run t2 (repeat TBs (Z.to_nat (snd zc))) = set_pos t2 (zlen (row_cells c nr0)) y false).
   { rewrite bs_run by (rewrite Hx2, Hsplit, zlen_app, HzZ; pose proof (zlen_nonneg (row_cells c nr0)); lia).
     destruct (Z.to_nat (snd zc)) eqn:En; [lia|]. f_equal; [|exact Hy2].
@@ -1027,36 +1098,36 @@ Proof.
   (* insert Y, then its combining characters *)
   set (tail := if negb (g_utf8 c) && (ycs =? 2) then [TIbmOff] else []).
   set (t6 := set_irm t5 true).
-  set (t7 := put t6 (fst yc) (snd yc)).
-  set (t8 := run t7 (map ch_tok ys)).
-  rewrite Eyt.
-  replace (run (run (run (run t5 [TIrmOn]) (map ch_tok (yc :: ys))) [TIrmOff]) tail) with (run (set_irm t8 false) tail)
+  set (t7 := put t6 (fst oc) (snd oc)).
+  set (t8 := run t7 (map ch_tok os)).
+  replace (run (run (run (run t5 [TIrmOn]) (map ch_tok (oc :: os))) [TIrmOff]) tail) with (run (set_irm t8 false) tail)
     by reflexivity.
   assert (HR6 : RowSt t6 y (row_cells c nr0) (Zc ++ R')) by (apply RowSt_set_irm; exact HR5).
   assert (HF6 : SameFrame t0 t6 y) by (apply SameFrame_set_irm; exact HF5).
   assert (Hy6 : 0 <= y < zlen (t_grid t6)) by (cbn; rewrite (SameFrame_len _ _ _ HF5); exact Hy).
-  destruct (put_ins_ok t0 t6 y (row_cells c nr0) Zc R' (fst yc) (snd yc) HR6 HF6 Hy6 eq_refl Hwy HzR' HwZ)
+  assert (HzR'o : zlen R' = snd oc) by lia.
+  destruct (put_ins_ok t0 t6 y (row_cells c nr0) Zc R' (fst oc) (snd oc) HR6 HF6 Hy6 eq_refl Hwo HzR'o HwZ)
     as (HR7 & HF7 & HM7).
   fold t7 in HR7, HF7, HM7.
   destruct HM7 as (M1 & M2 & M3 & M4). cbn in M1, M2, M3, M4.
   assert (Hcs7 : cur_cs t7 = ycs).
   { unfold cur_cs in *. rewrite M3, M4, (SameFrame_g1 t0 t6 t7 y HF6 HF7). cbn. exact Hcs5. }
-  destruct (print_any ys t0 t7 y _ Zc HR7 HF7 Hy (or_intror Hys) Hys12) as (R8 & HR8 & HF8 & HM8 & HR8eq).
-  { rewrite (calc_width_zw ys Hys). destruct HR7 as (_ & _ & Hl & _). rewrite zlen_app in *.
+  destruct (print_any os t0 t7 y _ Zc HR7 HF7 Hy (or_intror Hos) Hos12) as (R8 & HR8 & HF8 & HM8 & HR8eq).
+  { rewrite (calc_width_zw os Hos). destruct HR7 as (_ & _ & Hl & _). rewrite zlen_app in *.
     pose proof (zlen_nonneg Zc). lia. }
-  fold t8 in HR8, HF8, HM8. rewrite (HR8eq Hys) in HR8. clear HR8eq R8.
+  fold t8 in HR8, HF8, HM8. rewrite (HR8eq Hos) in HR8. clear HR8eq R8.
   destruct HM8 as (N1 & N2 & N3 & N4).
   (* what is now in front of Z is exactly Y with its combining characters *)
-  assert (EY : paint_text (row_cells c nr0 ++ char_cells (fst yc) (snd yc) (cur_cs t6) (t_attr t6)) (cur_cs t7) (t_attr t7) ys
+  assert (EY : paint_text (row_cells c nr0 ++ char_cells (fst oc) (snd oc) (cur_cs t6) (t_attr t6)) (cur_cs t7) (t_attr t7) os
                = row_cells c nr0 ++ Yc).
   { rewrite Hcs7, M1. replace (cur_cs t6) with ycs by (unfold cur_cs in *; cbn; exact (eq_sym Hcs5)).
     replace (t_attr t6) with (attr_vis c ya) by (cbn; congruence).
     rewrite ?Hat5. rewrite paint_text_prefix.
-    - f_equal. unfold Yc. rewrite Eyt. cbn [run_cells]. rewrite paint_text_cons. unfold paint_chr.
-      destruct (snd yc =? 0) eqn:E0; [lia|]. cbn [app]. reflexivity.
+    - f_equal. unfold Yc. cbn [run_cells]. rewrite Eot. rewrite paint_text_cons. unfold paint_chr.
+      destruct (snd oc =? 0) eqn:E0; [lia|]. cbn [app]. reflexivity.
     - apply WFc_char_cells. lia.
-    - unfold char_cells. destruct (snd yc =? 0) eqn:E0; [lia|discriminate].
-    - exact Hys12. }
+    - unfold char_cells. destruct (snd oc =? 0) eqn:E0; [lia|discriminate].
+    - exact Hos12. }
   rewrite EY in HR8.
   (* insert mode off, IBMPC off again if Y was drawn in it *)
   assert (H9 : exists t9, run (set_irm t8 false) tail = t9 /\ t_grid t9 = t_grid t8 /\ SameFrame t0 t9 y /\ t_y t9 = y
